@@ -30,11 +30,22 @@ import (
 //   create <alloc> <Mraw> <Nraw> <Craw> <L> <enabled> <startNs> <planDurNs> <liqPartRaw> <vestDurNs> <vestStartAfterNs>
 //   time <dtNs> | fund <a> <amt> | buy <a> <amt> <maxCost> | bes <a> <spend> <minTokens> | sell <a> <amt> <minIncome>
 //   enable <a> | settle <raFunded> | claim <a> | claimv <a> | xfer <a> <b> <amt>
+//   chown <a> <b>                                        (x/rollapp MsgTransferOwnership{CurrentOwner a, NewOwner b})
 //   xs <Mraw> <Nraw> <Craw> <L> <sold> <netSpend>        (stateless Newton-contract sweep op)
 // After a `|` the executor appends the curve-oracle values it read from the real code:
 // `x:I(x)` (raw 10^-18 value of integral(x) obtained as Cost(0,x) of an 18/18-decimals copy of the
 // curve — `integral` itself is unexported) and `s:p:T` (TokensApproximation(s,p) raw, or `err`).
 // Tokens after `|` on an input line are ignored and recomputed (so any line replays).
+//
+// Many plans (Model/IroPlans): a trace may register further rollapps, each a "slot" with its own owner,
+// traders, denoms, plan and curve; all other op lines address the CURRENT slot.
+//   newra            register a further rollapp; it becomes the current slot
+//   sel <k>          make slot k current
+//   restart          export the whole application state, initialise a fresh application from it with the
+//                    production InitChainer (Fix.ImportedCopy) and CONTINUE ON THE IMPORTED CHAIN
+//   reset … | <n>    the oracle suffix of reset is the LastPlanId of the application the trace starts on
+// Every observation starts with `<class> <cur> <plan id of the current rollapp|-> <LastPlanId> <#plans> ;`
+// (the id is read through GetPlanByRollapp); the observation of `restart` shows every slot.
 
 var c13ErrTable = []ErrMap{
 	{irotypes.ErrPlanNotFound, "notfound"},
@@ -61,11 +72,25 @@ type c13Snap struct {
 	sold, liq math.Int
 }
 
+// c13Slot: one rollapp of a trace (the fields of the same names in c13 are the CURRENT slot's)
+type c13Slot struct {
+	rollapp, raDenom, iroDenom, planID string
+	curve                              irotypes.BondingCurve
+	actors                             []sdk.AccAddress
+	base                               []math.Int
+	besOK, trades, streakActor         int
+	streakBes                          bool
+	streak                             []c13Snap
+}
+
 type c13 struct {
 	r     *Run
 	f     *Fix
 	tr    int // traces started
 	onFix int
+	raSeq int // rollapps registered (names)
+	slots []c13Slot
+	cur   int
 
 	// configuration of the current trace
 	n        int
@@ -201,7 +226,8 @@ func (c *c13) modAddr() sdk.AccAddress {
 	return c.f.App.AccountKeeper.GetModuleAddress(irotypes.ModuleName)
 }
 
-func (c *c13) state() string {
+// slotState: plan, accounts of the plan / module and of the slot's actors
+func (c *c13) slotState() string {
 	ps := "-"
 	planLiq := math.ZeroInt()
 	if p, ok := c.plan(); ok {
@@ -213,7 +239,42 @@ func (c *c13) state() string {
 	for i, a := range c.actors {
 		accts = append(accts, fmt.Sprintf("%s,%s,%s", c.f.Bal(a, c.liq).Sub(c.base[i]), c.f.Bal(a, c.iroDenom), c.f.Bal(a, c.raDenom)))
 	}
-	return fmt.Sprintf("%s | %s %s %s | %s", ps, planLiq, c.f.Bal(c.modAddr(), c.iroDenom), c.f.Bal(c.modAddr(), c.raDenom), strings.Join(accts, " "))
+	return fmt.Sprintf("%s | %s %s %s o%d | %s", ps, planLiq, c.f.Bal(c.modAddr(), c.iroDenom), c.f.Bal(c.modAddr(), c.raDenom), c.ownerIdx(), strings.Join(accts, " "))
+}
+
+// ownerIdx: the actor index of the rollapp's current owner as x/rollapp has it (-1: nobody of the trace)
+func (c *c13) ownerIdx() int {
+	ra, ok := c.f.App.RollappKeeper.GetRollapp(c.f.Ctx, c.rollapp)
+	if !ok {
+		return -1
+	}
+	for i, a := range c.actors {
+		if a.String() == ra.Owner {
+			return i
+		}
+	}
+	return -1
+}
+
+// storePid: the plan id the store's by-rollapp index holds for the current rollapp
+func (c *c13) storePid() string {
+	if p, ok := c.k().GetPlanByRollapp(c.f.Ctx, c.rollapp); ok {
+		return strconv.FormatUint(p.Id, 10)
+	}
+	return "-"
+}
+
+func (c *c13) nPlans() int { return len(c.k().GetAllPlans(c.f.Ctx, false)) }
+
+func (c *c13) state() string {
+	return fmt.Sprintf("%d %s %d %d ; %s", c.cur, c.storePid(), c.k().GetLastPlanId(c.f.Ctx), c.nPlans(), c.slotState())
+}
+
+// stateAll: every slot (the observation of `restart`)
+func (c *c13) stateAll() string {
+	var parts []string
+	c.forAll(func(k int) { parts = append(parts, fmt.Sprintf("[%d %s %s]", k, c.storePid(), c.slotState())) })
+	return fmt.Sprintf("%d %d %d ; %s", c.cur, c.k().GetLastPlanId(c.f.Ctx), c.nPlans(), strings.Join(parts, " "))
 }
 
 func (c *c13) now() time.Duration { return c.f.Time.Sub(c.t0) }
@@ -256,14 +317,25 @@ func (c *c13) reset(fl []string) string {
 		c.liq = fmt.Sprintf("liq%d", c.L)
 	}
 	c.ensureDenom(c.liq, c.L)
-	name := "vf" + c13Letters(c.tr)
-	c.rollapp = fmt.Sprintf("%s_%d-1", name, 100000+c.tr)
+	c.slots, c.cur = []c13Slot{{}}, 0
+	c.newRollapp(0)
+	c.t0 = c.f.Time
+	c.kinds, c.nontrivial = nil, false
+	return "ok"
+}
+
+// newRollapp registers the rollapp of slot k (own owner and traders) and makes its fields current
+func (c *c13) newRollapp(k int) {
+	c.raSeq++
+	name := "vf" + c13Letters(c.raSeq)
+	c.rollapp = fmt.Sprintf("%s_%d-1", name, 100000+c.raSeq)
 	c.raDenom = "ibc/RA" + strings.ToUpper(name)
 	c.iroDenom = irotypes.IRODenom(c.rollapp)
 	c.planID = ""
+	c.curve = irotypes.BondingCurve{}
 	c.actors = nil
 	for i := 0; i < c.n; i++ {
-		c.actors = append(c.actors, Actor(c.tr*16+i))
+		c.actors = append(c.actors, Actor(c.tr*16+i+k*10000000))
 	}
 	owner := c.actors[0]
 	apptesting.FundForAliasRegistration(c.f.App, c.f.Ctx, name, owner.String())
@@ -285,10 +357,30 @@ func (c *c13) reset(fl []string) string {
 	for _, a := range c.actors {
 		c.base = append(c.base, c.f.Bal(a, c.liq))
 	}
-	c.t0 = c.f.Time
 	c.trades, c.streakActor, c.streak, c.besOK, c.streakBes = 0, -1, nil, 0, false
-	c.kinds, c.nontrivial = nil, false
-	return "ok"
+}
+
+func (c *c13) save() {
+	c.slots[c.cur] = c13Slot{c.rollapp, c.raDenom, c.iroDenom, c.planID, c.curve, c.actors, c.base, c.besOK, c.trades, c.streakActor, c.streakBes, c.streak}
+}
+
+func (c *c13) load(k int) {
+	s := c.slots[k]
+	c.rollapp, c.raDenom, c.iroDenom, c.planID, c.curve, c.actors, c.base = s.rollapp, s.raDenom, s.iroDenom, s.planID, s.curve, s.actors, s.base
+	c.besOK, c.trades, c.streakActor, c.streakBes, c.streak = s.besOK, s.trades, s.streakActor, s.streakBes, s.streak
+	c.cur = k
+}
+
+// forAll runs fn with every slot loaded in turn and restores the current one
+func (c *c13) forAll(fn func(k int)) {
+	c.save()
+	cur := c.cur
+	for k := range c.slots {
+		c.load(k)
+		fn(k)
+		c.save()
+	}
+	c.load(cur)
 }
 
 func (c *c13) class(err error) string { return ErrClass(err, c13ErrTable) }
@@ -312,7 +404,8 @@ func (c *c13) exec(line string) (obs string, suffix string) {
 	}
 	if fl[0] == "reset" {
 		c.lines = []string{main}
-		return c.reset(fl), ""
+		obs = c.reset(fl)
+		return obs, fmt.Sprintf("| %d", c.k().GetLastPlanId(c.f.Ctx))
 	}
 	if c.f == nil {
 		return "bad-op", ""
@@ -327,7 +420,62 @@ func (c *c13) exec(line string) (obs string, suffix string) {
 	cls := ""
 	kind := fl[0]
 	ok := false
+	all := false
+	extra := ""
+	ownerBefore := c.ownerIdx()
+	if ownerBefore < 0 {
+		ownerBefore = 0
+	}
 	switch fl[0] {
+	case "newra":
+		c.save()
+		c.slots = append(c.slots, c13Slot{})
+		c.cur = len(c.slots) - 1
+		c.newRollapp(c.cur)
+		planBefore, hadPlan = irotypes.Plan{}, false
+		cls = "ok"
+	case "sel":
+		k, _ := strconv.Atoi(fl[1])
+		if k < 0 || k >= len(c.slots) {
+			cls = "badslot"
+			break
+		}
+		c.save()
+		c.load(k)
+		cls = "ok"
+	case "restart":
+		all = true
+		f2, _, _, ierr := c.f.ImportedCopy()
+		if ierr != nil && c18ImportClass(ierr) == "vfbc-deploy-needs-proposer" {
+			// known C18 finding (the VFBC deployment at InitChain needs a proposer in the header): continue
+			// with a proposer, as the generic C18 hook does
+			f2, _, _, ierr = c.f.ImportedCopyOpt(true)
+		}
+		if ierr != nil {
+			cls = "import-failed"
+			// a trace with fewer than ten plans of its own may depend on the plans earlier traces left in the
+			// shared application: its op lines alone do not replay on a fresh one — separate signature, so
+			// that the self-contained directed trace (twelve plans) keeps the replay of the main signature
+			c.save()
+			own := 0
+			for _, sl := range c.slots {
+				if sl.planID != "" {
+					own++
+				}
+			}
+			sig := "C13/restart/exported-genesis-rejected/" + c18ImportClass(ierr)
+			if own < 10 {
+				sig += "/with-plans-of-earlier-traces"
+			}
+			post = append(post, func() {
+				c.viol(sig, trunc200("InitChainer failed on the exported state: "+ierr.Error()))
+			})
+			break
+		}
+		c.f = f2
+		lastFix = f2
+		c.fixProposer()
+		cls = "ok"
 	case "create":
 		curve := irotypes.BondingCurve{M: c13Dec(fl[2]), N: c13Dec(fl[3]), C: c13Dec(fl[4]), RollappDenomDecimals: 18}
 		l, _ := strconv.Atoi(fl[5])
@@ -337,7 +485,7 @@ func (c *c13) exec(line string) (obs string, suffix string) {
 		vd, _ := strconv.ParseInt(fl[10], 10, 64)
 		vs, _ := strconv.ParseInt(fl[11], 10, 64)
 		enabled := fl[6] == "1"
-		msg := &irotypes.MsgCreatePlan{Owner: c.actors[0].String(), RollappId: c.rollapp, AllocatedAmount: c13Int(fl[1]), BondingCurve: curve,
+		msg := &irotypes.MsgCreatePlan{Owner: c.actors[ownerBefore].String(), RollappId: c.rollapp, AllocatedAmount: c13Int(fl[1]), BondingCurve: curve,
 			TradingEnabled: enabled, IroPlanDuration: time.Duration(pd), IncentivePlanParams: irotypes.DefaultIncentivePlanParams(),
 			LiquidityPart: c13Dec(fl[9]), LiquidityDenom: c.liq, VestingDuration: time.Duration(vd), VestingStartTimeAfterSettlement: time.Duration(vs)}
 		if enabled {
@@ -407,7 +555,7 @@ func (c *c13) exec(line string) (obs string, suffix string) {
 		lb := c.f.Bal(a, c.liq)
 		_, err = c.f.Deliver(&irotypes.MsgBuy{Buyer: a.String(), PlanId: c.pid(), Amount: amt, MaxCostAmount: c13Int(fl[3])})
 		cls = c.class(err)
-		post = append(post, func() { c.afterTrade(kind, ai, a, planBefore, hadPlan, err, math.Int{}, math.Int{}, lb) })
+		post = append(post, func() { c.afterTrade(kind, ai, a, planBefore, hadPlan, err, math.Int{}, math.Int{}, lb, ownerBefore) })
 	case "bes":
 		a, ai := act(1)
 		spend := c13Int(fl[2])
@@ -428,13 +576,35 @@ func (c *c13) exec(line string) (obs string, suffix string) {
 		lb := c.f.Bal(a, c.liq)
 		_, err = c.f.Deliver(&irotypes.MsgBuyExactSpend{Buyer: a.String(), PlanId: c.pid(), Spend: spend, MinOutTokensAmount: c13Int(fl[3])})
 		cls = c.class(err)
+		if err == nil {
+			// the pointwise Newton contract at this executed purchase (Model/IroNewton: NewtonUpperAt /
+			// NewtonLowerAt with newtonTolRaw), recomputed here from the real code's values
+			pa, _ := c.plan()
+			orc = append(orc, c.oracleI(c.curve, planBefore.SoldAmt), c.oracleI(c.curve, pa.SoldAmt))
+			nu, nl := c13NewtonAt(c.curve, c.L, planBefore.SoldAmt, pa.SoldAmt, net)
+			extra = fmt.Sprintf(" nu=%s nl=%s", b01(nu), b01(nl))
+			if !nl {
+				c.r.Hit("newton/lower-contract-fails-at-executed-purchase")
+				sold0, sold1, L := planBefore.SoldAmt, pa.SoldAmt, c.L
+				post = append(post, func() {
+					c.viol("C13/newton_contract/undershoot-at-executed-purchase", fmt.Sprintf("executed purchase L=%d sold %s: net spend %s buys %s tokens whose curve value is below the spend by more than the Newton tolerance (3·1e-12 + 1e-11·spend)", L, sold0, net, sold1.Sub(sold0)))
+				})
+			}
+			if !nu {
+				c.r.Hit("newton/upper-contract-fails-at-executed-purchase")
+				sold0, sold1, L := planBefore.SoldAmt, pa.SoldAmt, c.L
+				post = append(post, func() {
+					c.viol("C13/newton_contract/overshoot", fmt.Sprintf("executed purchase L=%d sold %s: net spend %s buys %s tokens whose unfloored cost exceeds it (blame point of the solvency / round-trip theorems)", L, sold0, net, sold1.Sub(sold0)))
+				})
+			}
+		}
 		if (cls == "other" || cls == "panic") && curveErr {
 			cls = "curve" // TokensForExactInAmount returned an error or panicked (LegacyDec overflow): the tx fails
 			if IsPanic(err) {
 				c.r.Hit("bes/newton-panic")
 			}
 		}
-		post = append(post, func() { c.afterTrade(kind, ai, a, planBefore, hadPlan, err, spend, net, lb) })
+		post = append(post, func() { c.afterTrade(kind, ai, a, planBefore, hadPlan, err, spend, net, lb, ownerBefore) })
 	case "sell":
 		a, ai := act(1)
 		amt := c13Int(fl[2])
@@ -444,11 +614,14 @@ func (c *c13) exec(line string) (obs string, suffix string) {
 		lb := c.f.Bal(a, c.liq)
 		_, err = c.f.Deliver(&irotypes.MsgSell{Seller: a.String(), PlanId: c.pid(), Amount: amt, MinIncomeAmount: c13Int(fl[3])})
 		cls = c.class(err)
-		post = append(post, func() { c.afterTrade(kind, ai, a, planBefore, hadPlan, err, math.Int{}, math.Int{}, lb) })
+		post = append(post, func() { c.afterTrade(kind, ai, a, planBefore, hadPlan, err, math.Int{}, math.Int{}, lb, ownerBefore) })
 	case "enable":
-		a, _ := act(1)
+		a, ai := act(1)
 		_, err = c.f.Deliver(&irotypes.MsgEnableTrading{Owner: a.String(), PlanId: c.pid()})
 		cls = c.class(err)
+		if err == nil && ai != ownerBefore {
+			post = append(post, func() { c.viol("C13/owner/non-owner-enabled-trading", fmt.Sprintf("a%d enabled trading, the owner is a%d", ai, ownerBefore)) })
+		}
 	case "settle":
 		rf := c13Int(fl[1])
 		err = c.f.Try(func(ctx sdk.Context) error {
@@ -481,7 +654,27 @@ func (c *c13) exec(line string) (obs string, suffix string) {
 		liqBefore := c.f.Bal(a, c.liq)
 		_, err = c.f.Deliver(&irotypes.MsgClaimVested{Claimer: a.String(), PlanId: c.pid()})
 		cls = c.class(err)
-		post = append(post, func() { c.afterClaimVested(ai, a, planBefore, hadPlan, liqBefore, err) })
+		post = append(post, func() { c.afterClaimVested(ai, a, planBefore, hadPlan, liqBefore, err, ownerBefore) })
+	case "chown":
+		a, _ := act(1)
+		b, bi := act(2)
+		_, err = c.f.Deliver(&rollapptypes.MsgTransferOwnership{CurrentOwner: a.String(), NewOwner: b.String(), RollappId: c.rollapp})
+		switch {
+		case err == nil:
+			cls = "ok"
+			if got := c.ownerIdx(); got != bi {
+				post = append(post, func() { c.viol("C13/owner/transfer-did-not-take-effect", fmt.Sprintf("owner is a%d after a transfer to a%d", got, bi)) })
+			}
+		case IsPanic(err):
+			cls = "panic"
+		case errors.Is(err, rollapptypes.ErrUnauthorizedSigner):
+			cls = "denied"
+		case errors.Is(err, rollapptypes.ErrSameOwner):
+			cls = "rej"
+		default:
+			cls = "other"
+		}
+		c.streakActor = -1
 	case "xfer":
 		a, _ := act(1)
 		b, _ := act(2)
@@ -500,6 +693,9 @@ func (c *c13) exec(line string) (obs string, suffix string) {
 	}
 	ok = cls == "ok"
 	after := c.state()
+	if all {
+		after = c.stateAll()
+	}
 	full := main
 	if len(orc) > 0 {
 		suffix = "| " + strings.Join(orc, " ")
@@ -507,7 +703,7 @@ func (c *c13) exec(line string) (obs string, suffix string) {
 	}
 	c.lines = append(c.lines, full)
 	// a rejected op must leave everything observable untouched
-	if !ok && kind != "time" {
+	if !ok && kind != "time" && kind != "restart" {
 		if after != before || digest != c.f.StoreDigest("iro") {
 			c.viol("C13/atomic/rejected-op-changed-state", fmt.Sprintf("class %s: before `%s` after `%s`", cls, before, after))
 		}
@@ -515,13 +711,34 @@ func (c *c13) exec(line string) (obs string, suffix string) {
 	for _, fn := range post {
 		fn()
 	}
-	c.monitorState()
+	if ok && (kind == "create" || kind == "restart") && len(c.slots) > 1 {
+		// a new plan / a restart must leave every other plan where it was
+		c.forAll(func(int) { c.monitorState() })
+	} else {
+		c.monitorState()
+	}
 	c.kinds = append(c.kinds, kind+"/"+cls)
 	if ok && kind != "time" && kind != "fund" {
 		c.nontrivial = true
 	}
 	c.r.Hit(kind + "/" + cls)
-	return cls + " " + after, suffix
+	return cls + " " + after + extra, suffix
+}
+
+// c13NewtonAt: the two pointwise Newton inequalities at an executed exact-spend purchase, on the real
+// code's values: I(x) = Cost(0,x) of the 18/18-decimals copy of the curve (raw 10^-18),
+//   upper: 10^L·(I(sold1) − I(sold0)) ≤ 10^18·net
+//   lower: p − tol ≤ I(sold1) − I(sold0)   with p = net·10^(18−L), tol = 3·10^(18−12) + p/10^11
+// (12 = epsilonPrecision of bonding_curve.go; the model takes it from the regenerated Gen/Iro.lean)
+func c13NewtonAt(curve irotypes.BondingCurve, L int, sold0, sold1, net math.Int) (upper, lower bool) {
+	c18 := curve
+	c18.RollappDenomDecimals, c18.LiquidityDenomDecimals = 18, 18
+	d := c18.Cost(math.ZeroInt(), sold1).Sub(c18.Cost(math.ZeroInt(), sold0))
+	upper = p10(L).Mul(d).LTE(p10(18).Mul(net))
+	p := net.Mul(p10(18 - L))
+	tol := p10(6).MulRaw(3).Add(p.Quo(p10(11)))
+	lower = p.Sub(tol).LTE(d)
+	return
 }
 
 // ---- monitors (model independent) ------------------------------------------------------------
@@ -529,6 +746,22 @@ func (c *c13) exec(line string) (obs string, suffix string) {
 // monitorState: clauses that must hold after every op
 func (c *c13) monitorState() {
 	p, ok := c.plan()
+	if c.planID != "" {
+		// the id handed out at creation must keep naming this rollapp's plan, and the index must agree
+		if !ok {
+			c.viol("C13/plans/plan-record-missing", fmt.Sprintf("slot %d: plan %s of %s is gone", c.cur, c.planID, c.rollapp))
+		} else if p.RollappId != c.rollapp {
+			c.viol("C13/plans/plan-replaced-by-another-rollapp", fmt.Sprintf("slot %d: plan id %s of %s now names the plan of %s", c.cur, c.planID, c.rollapp, p.RollappId))
+			c.onFix = 1 << 30
+			return
+		}
+		if sp := c.storePid(); sp != c.planID {
+			c.viol("C13/plans/index-names-another-id", fmt.Sprintf("slot %d: created as plan %s, GetPlanByRollapp finds %s", c.cur, c.planID, sp))
+		}
+		if id, _ := strconv.ParseUint(c.planID, 10, 64); id > c.k().GetLastPlanId(c.f.Ctx) {
+			c.viol("C13/plans/last-plan-id-below-existing-id", fmt.Sprintf("plan %s exists, LastPlanId is %d", c.planID, c.k().GetLastPlanId(c.f.Ctx)))
+		}
+	}
 	if !ok {
 		return
 	}
@@ -588,11 +821,11 @@ func (c *c13) monitorState() {
 	}
 }
 
-func (c *c13) afterTrade(kind string, ai int, a sdk.AccAddress, pb irotypes.Plan, had bool, err error, spend, net, liqBefore math.Int) {
+func (c *c13) afterTrade(kind string, ai int, a sdk.AccAddress, pb irotypes.Plan, had bool, err error, spend, net, liqBefore math.Int, ownerIdx int) {
 	if err != nil {
 		return
 	}
-	owner := ai == 0
+	owner := ai == ownerIdx
 	if had {
 		if pb.IsSettled() {
 			c.viol("C13/trade_gating/traded-after-settlement", kind+" succeeded on a settled plan")
@@ -680,12 +913,12 @@ func (c *c13) afterClaim(ai int, a sdk.AccAddress, pb irotypes.Plan, had bool, b
 	}()
 }
 
-func (c *c13) afterClaimVested(ai int, a sdk.AccAddress, pb irotypes.Plan, had bool, liqBefore math.Int, err error) {
+func (c *c13) afterClaimVested(ai int, a sdk.AccAddress, pb irotypes.Plan, had bool, liqBefore math.Int, err error, ownerIdx int) {
 	if err != nil || !had {
 		return
 	}
-	if ai != 0 {
-		c.viol("C13/vesting/non-owner-claimed", fmt.Sprintf("a%d claimed vested funds", ai))
+	if ai != ownerIdx {
+		c.viol("C13/vesting/non-owner-claimed", fmt.Sprintf("a%d claimed vested funds, the owner is a%d", ai, ownerIdx))
 	}
 	pa, _ := c.plan()
 	v := pa.VestingPlan
@@ -841,4 +1074,87 @@ func c13Corpus(c *c13) {
 		}
 		c.r.Hit("corpus/witness-trace")
 	}
+	c13ManyPlans(c)
+	c13OwnerChange(c, "0")
+	c13OwnerChange(c, "1")
+}
+
+// c13OwnerChange: the directed ownership trace.  The rollapp is handed over (real MsgTransferOwnership)
+// before the plan's start — the former owner is gated like any trader, the new one trades — and again
+// after settlement, between two vesting claims: each time only the CURRENT owner can claim, the total
+// released to both owners stays within the vesting amount.  feeBase "1": the taker fee's beneficiary
+// (half of the fee in the base denom) follows the owner too.
+func c13OwnerChange(c *c13, feeBase string) {
+	const alloc = "1000000000000000000000"
+	c.do("reset 20000000000000000 1000000000000000000 400000000000000000 0 0 " + feeBase + " 3 " + alloc + " 18")
+	c.do("fund 0 " + alloc)
+	c.do("fund 1 " + alloc)
+	c.do("fund 2 " + alloc)
+	c.do("create " + alloc + " 0 1000000000000000000 1000000000000000000 18 1 3600000000000 3600 500000000000000000 3 0")
+	c.do("chown 1 2") // not the owner
+	c.do("chown 0 0") // to himself
+	c.do("chown 0 2")
+	c.do("buy 0 1000000000000000000 " + alloc) // former owner: not started
+	c.do("buy 2 2000000000000000000 " + alloc) // new owner: before the start
+	c.do("enable 0")
+	c.do("time 3600000000000")
+	c.do("buy 1 3000000000000000000 " + alloc) // fee beneficiary is a2
+	c.do("bes 0 1000000000000000000 1")
+	c.do("sell 1 1000000000000000000 1")
+	c.do("settle " + alloc)
+	c.do("time 1")
+	c.do("claimv 0")
+	c.do("claimv 2")
+	c.do("chown 0 1")
+	c.do("chown 2 1")
+	c.do("time 1")
+	c.do("claimv 2")
+	c.do("claimv 1")
+	c.do("time 5")
+	c.do("claimv 1")
+	c.do("claimv 1")
+	c.do("claim 1")
+	c.do("claim 2")
+	c.r.Hit("corpus/owner-change")
+}
+
+// c13ManyPlans: the directed restart trace.  Twelve rollapps with a plan each (so at least eleven plans
+// exist whatever the application held before: the plan section is walked 1,10,11,…,2,…,9 and the LAST
+// exported plan is not the one with the largest id), a holder on every plan; restart; a thirteenth plan
+// is created (it must get a fresh id); then every old plan is settled and its holder claims 1:1.
+func c13ManyPlans(c *c13) {
+	const alloc = "1000000000000000000000"
+	create := "create " + alloc + " 0 1000000000000000000 1000000000000000000 18 1 0 3600 500000000000000000 3 0"
+	c.do("reset 20000000000000000 1000000000000000000 400000000000000000 0 0 0 3 " + alloc + " 18")
+	for k := 0; k < 12; k++ {
+		if k > 0 {
+			c.do("newra")
+		}
+		c.do("fund 0 " + alloc)
+		c.do("fund 1 " + alloc)
+		c.do(create)
+		c.do(fmt.Sprintf("buy 1 %d000000000000000000 %s", 5+k, alloc))
+	}
+	c.do("restart")
+	c.do("newra")
+	c.do("fund 0 " + alloc)
+	c.do(create)
+	c.do("fund 1 " + alloc)
+	c.do("buy 1 7000000000000000000 " + alloc)
+	for k := 0; k < 12; k++ {
+		c.do(fmt.Sprintf("sel %d", k))
+		if k%2 == 0 {
+			c.do("sell 1 1000000000000000000 1")
+		}
+		c.do("settle " + alloc)
+		c.do("claim 1")
+		c.do("claim 1")
+		c.do("time 1")
+		c.do("claimv 0")
+	}
+	c.do("restart")
+	c.do("sel 12")
+	c.do("settle " + alloc)
+	c.do("claim 1")
+	c.r.Hit("corpus/many-plans-restart")
 }
